@@ -571,6 +571,16 @@ def run_witness(w):
                 if got != content.encode("utf-8"):
                     return False, "%s = %r" % (name, got[:200])
             return True, ""
+    if op == "session_pair":
+        # two key strings that the property says are interchangeable; the witness "passes" when they behave alike
+        def fin(keys):
+            x = hook_server_call({"op": "session", "text": w["text"], "cursor": 0, "steps": [["move", keys]]})
+            if "steps" not in x:
+                return {"crash": True}
+            st = x["steps"][-1]["post"]
+            return {"buf": st["buf"], "cur": st["cur"]["value"], "mode": st["mode"]}
+        a, b = fin(w["keys_a"]), fin(w["keys_b"])
+        return (a == b), "%s vs %s" % (canon(a)[:120], canon(b)[:120])
     return True, "unknown witness op (not run)"
 
 
